@@ -28,7 +28,7 @@ var c08Reqs = []c08Req{
 	{"PUT", "/things/k", "update", `{"name":"n"}`, "update", 204, false},
 	{"DELETE", "/things/k", "delete", "", "delete", 204, false},
 	{"POST", "/things?action=ping", "action", `{"msg":"m"}`, "action:ping", 200, false},
-	{"GET", "/things?q=search&lim=1", "finder", "", "finder:search", 200, false},
+	{"GET", "/things?q=search&kw=x&lim=1", "finder", "", "finder:search", 200, false},
 	{"GET", "/things?ids=List(a)", "batch_get", "", "batch_get", 200, false},
 	{"POST", "/things/k", "partial_update", `{"patch":{"$set":{"name":"n"}}}`, "partial_update", 204, false},
 }
